@@ -7,6 +7,21 @@ Flow      flow-sensitive provenance inside one function: which expressions a val
 guards_of lexical guards of a statement: enclosing if/elif tests with polarity plus earlier sibling
           `if T: continue/return/raise/break` early exits.
 bind_args argument -> parameter binding of a call against a FuncInfo.
+
+Spelling-independent readers (what the rules use instead of matching statement shapes):
+  guarded_views / finish_views   a rule function is evaluated on the plain source and on
+          behaviour-preserving normal forms of it (_h_C_norm.py: helpers inlined, aliases and
+          single-use temporaries expanded, early exits nested, branch polarity normalised,
+          append-only loops as comprehensions, keyword arguments positional); it is discharged
+          when it is discharged on one of them, otherwise the verdict on the plain source stands
+  resolve / inline      the expression a local stands for (flow-sensitive)
+  guard_atoms / split_guard      guards as atoms (test, polarity), conjunctions split, negative
+          comparisons stated positively
+  return_cases / value_cases     every (value, atoms) a function returns / a name may hold
+  elements              the producers of a list's elements: comprehension, literal or append loop
+  Conditions + f_equivalent      the condition under which a statement runs as a boolean formula
+          over role-named atoms, compared with the expected one by truth table
+  calls                 fn.calls() with '?.<method>' names for computed receivers
 """
 import ast
 from ..index import AnalysisError, dotted
@@ -546,7 +561,60 @@ RAW_FUNCS = {
 }
 
 
-def _classify_root(w, fn, flow, r, names, extra):
+def _flow_of(fn):
+  if not hasattr(fn, "_c_flow"):
+    fn._c_flow = Flow(fn)
+  return fn._c_flow
+
+
+def _call_sites(w, fi):
+  """[(caller Fn, cfg node, Call)] of a private method (self.<name>(...) in a class sharing the
+  method) or private module function (<name>(...) in the same module)."""
+  if not (fi.name.startswith("_") and not fi.name.startswith("__")) or fi.parent is not None:
+    return []
+  idx = w.__dict__.setdefault("_c_call_sites", {})
+  if fi.qualname in idx:
+    return idx[fi.qualname]
+  out = []
+  for cfi in w.repo.all_functions():
+    if cfi.qualname == fi.qualname:
+      continue
+    if fi.cls is not None:
+      tm = w.repo.find_method(cfi.cls, fi.name) if cfi.cls is not None else None
+      if tm is None or tm.qualname != fi.qualname:
+        continue
+    elif cfi.module is not fi.module:
+      continue
+    if not any(isinstance(x, (ast.Attribute, ast.Name)) and
+               (getattr(x, "attr", None) == fi.name or getattr(x, "id", None) == fi.name)
+               for x in ast.walk(cfi.node)):
+      continue
+    # callers are read as written (in a view that inlines helpers the call is gone)
+    if "_c_plain" not in w.__dict__:
+      from ..fn import World
+      w.__dict__["_c_plain"] = w if type(w) is World else World(w.repo)
+    cfn = w.__dict__["_c_plain"].fn_of(cfi)
+    for (n, c, nm) in cfn.calls():
+      if fi.cls is not None and nm == "self." + fi.name:
+        out.append((cfn, n, c))
+      elif fi.cls is None and nm == fi.name:
+        out.append((cfn, n, c))
+  idx[fi.qualname] = out
+  return out
+
+
+def _only_called_from(w, fi, funcs, depth=0):
+  """fi is one of `funcs`, or a private helper called only from them (one or two levels)."""
+  if fi.qualname in funcs:
+    return True
+  if depth >= 2:
+    return False
+  sites = _call_sites(w, fi)
+  return bool(sites) and all(_only_called_from(w, cfn.fi, funcs, depth + 1)
+                             for (cfn, n, c) in sites)
+
+
+def _classify_root(w, fn, flow, r, names, extra, depth=0):
   """(True | reason-string, carries-values?) for one origin of a gateway argument."""
   q = fn.qualname
   if r.kind == "call":
@@ -587,11 +655,31 @@ def _classify_root(w, fn, flow, r, names, extra):
       return True, True     # rebuild of a reverse column from the relation (C11-R4)
     for suffix, (funcs, _reason) in RAW_FUNCS.items():
       if endswith(nm, suffix) and not r.path:
-        return (True if q in funcs else "%s used outside %s" % (suffix, sorted(funcs))), True
+        return (True if _only_called_from(w, fn.fi, funcs)
+                else "%s used outside %s" % (suffix, sorted(funcs))), True
     return "action produced by unrecognised call %s" % (nm or short(r.node)), True
   if r.kind == "param":
     if q.endswith("._do_extra_doc_action") and not r.path:
       return True, True
+    # a private helper forwarding (part of) its parameter: decided at its call sites
+    sites = _call_sites(w, fn.fi) if depth < 2 else []
+    if sites:
+      verdict, rel = True, False
+      for (cfn, cn, cc) in sites:
+        try:
+          b = bind_args(cc, fn.fi)
+        except AnalysisError:
+          b = {}
+        if r.node not in b:
+          return "cannot follow parameter %s of %s to its call in %s" % (r.node, q,
+                                                                         cfn.qualname), True
+        cflow = _flow_of(cfn)
+        for r2 in cflow.roots(b[r.node], cn.id):
+          v2, rel2 = _classify_root(w, cfn, cflow, r2.plus(*r.path), names, extra, depth + 1)
+          rel = rel or rel2
+          if v2 is not True:
+            verdict = v2
+      return verdict, rel
     return "action is the parameter %s of a function that is not a gateway" % r.node, True
   if r.kind == "lit" and r.path and r.path[0][0] == "elem":
     return "unresolved list element", True
@@ -693,6 +781,14 @@ def _evaluate(run, repo, v, func, args, kw):
     func(buf, world_for(repo, v), *args, **kw)
   except AnalysisError as e:
     err = e
+  except (AttributeError, IndexError, KeyError, TypeError, ValueError) as e:
+    # a shape the rule function did not anticipate: it cannot decide on this view (the other
+    # rule functions of the property still report)
+    import traceback
+    tb = traceback.extract_tb(e.__traceback__)
+    where = "%s:%d" % (tb[-1].filename.split("/")[-1], tb[-1].lineno) if tb else "?"
+    err = AnalysisError("%s: unsupported code shape (%s: %s at %s)"
+                        % (getattr(func, "__name__", "?"), type(e).__name__, e, where))
   return buf, err
 
 
@@ -787,9 +883,13 @@ def resolve(flow, expr, nid=None):
   return expr
 
 
+_POSITIVE_OP = {ast.NotEq: ast.Eq, ast.NotIn: ast.In, ast.IsNot: ast.Is}
+
+
 def split_guard(t, pol):
   """Atoms [(expr, polarity)] a guard establishes: conjunctions that hold and disjunctions that
-  fail are split, `not` is folded into the polarity."""
+  fail are split, `not` is folded into the polarity, and negative comparisons (!=, not in, is
+  not) are stated as the positive comparison with the opposite polarity."""
   out = []
   def go(e, p):
     if isinstance(e, ast.UnaryOp) and isinstance(e.op, ast.Not):
@@ -798,6 +898,11 @@ def split_guard(t, pol):
                                         (isinstance(e.op, ast.Or) and not p)):
       for v in e.values:
         go(v, p)
+    elif isinstance(e, ast.Compare) and len(e.ops) == 1 and type(e.ops[0]) in _POSITIVE_OP:
+      # `a != b` / `a not in b` / `a is not b`: the positive comparison with the other polarity
+      pos = ast.Compare(left=e.left, ops=[_POSITIVE_OP[type(e.ops[0])]()],
+                        comparators=e.comparators)
+      out.append((ast.copy_location(pos, e), not p))
     else:
       out.append((e, p))
   go(t, pol)
@@ -1043,3 +1148,186 @@ def inline(flow, expr, nid=None, stop=(), depth=6):
         setattr(new, fld, go(val, at, d))
     return new
   return go(expr, nid, depth)
+
+
+# ---------------------------------------------------------------------------------------------
+# conditions as boolean formulas: "under which condition does this statement run" compared with
+# the condition a rule expects, by truth table over the atomic tests -- independent of nesting,
+# early exits, De Morgan rewritings, merged / split tests and boolean flag locals.
+
+def f_atom(key):
+  return ("atom", key)
+
+
+def f_not(f):
+  if f[0] == "not":
+    return f[1]
+  if f[0] == "const":
+    return ("const", not f[1])
+  return ("not", f)
+
+
+def f_and(*fs):
+  return ("and", list(fs))
+
+
+def f_or(*fs):
+  return ("or", list(fs))
+
+
+F_TRUE = ("const", True)
+F_FALSE = ("const", False)
+
+
+def f_atoms(f, acc=None):
+  acc = acc if acc is not None else []
+  if f[0] == "atom":
+    if f[1] not in acc:
+      acc.append(f[1])
+  elif f[0] == "not":
+    f_atoms(f[1], acc)
+  elif f[0] in ("and", "or"):
+    for x in f[1]:
+      f_atoms(x, acc)
+  return acc
+
+
+def f_eval(f, env):
+  k = f[0]
+  if k == "const":
+    return f[1]
+  if k == "atom":
+    return env[f[1]]
+  if k == "not":
+    return not f_eval(f[1], env)
+  if k == "and":
+    return all(f_eval(x, env) for x in f[1])
+  return any(f_eval(x, env) for x in f[1])
+
+
+def f_equivalent(f1, f2, given=None, limit=12):
+  """Truth-table equivalence of two formulas (under the assumption `given`, a formula, when
+  present). Raises AnalysisError when there are too many atoms to enumerate."""
+  atoms = f_atoms(f1)
+  f_atoms(f2, atoms)
+  if given is not None:
+    f_atoms(given, atoms)
+  if len(atoms) > limit:
+    raise AnalysisError("condition with %d atomic tests is too large to compare" % len(atoms))
+  for bits in range(1 << len(atoms)):
+    env = {a: bool(bits >> i & 1) for i, a in enumerate(atoms)}
+    if given is not None and not f_eval(given, env):
+      continue
+    if f_eval(f1, env) != f_eval(f2, env):
+      return False
+  return True
+
+
+def f_show(f):
+  k = f[0]
+  if k == "const":
+    return str(f[1])
+  if k == "atom":
+    return str(f[1])
+  if k == "not":
+    return "not (%s)" % f_show(f[1])
+  return "(" + (" %s " % k).join(f_show(x) for x in f[1]) + ")"
+
+
+class Conditions(object):
+  """Builds formulas for one function. key(expr) names an atomic test: rules pass a function that
+  maps the tests they know to role names (e.g. 'supplied', 'never'); anything else is keyed by
+  its text with locals inlined, so an unexpected test stays visible as an extra atom."""
+  def __init__(self, fn, flow, key=None):
+    self.fn = fn
+    self.flow = flow
+    self.key = key or (lambda e: None)
+
+  def _atom(self, e):
+    k = self.key(e)
+    if k is None:
+      k = text(inline(self.flow, e))
+    if isinstance(k, tuple) and k and k[0] in ("atom", "not", "and", "or", "const"):
+      return k            # the key function may answer with a formula
+    return f_atom(k)
+
+  def of_expr(self, e, nid=None, depth=0):
+    if isinstance(e, ast.UnaryOp) and isinstance(e.op, ast.Not):
+      return f_not(self.of_expr(e.operand, nid, depth))
+    if isinstance(e, ast.BoolOp):
+      parts = [self.of_expr(v, nid, depth) for v in e.values]
+      return f_and(*parts) if isinstance(e.op, ast.And) else f_or(*parts)
+    if isinstance(e, ast.Constant):
+      return ("const", bool(e.value))
+    if isinstance(e, ast.IfExp):
+      c = self.of_expr(e.test, nid, depth)
+      return f_or(f_and(c, self.of_expr(e.body, nid, depth)),
+                  f_and(f_not(c), self.of_expr(e.orelse, nid, depth)))
+    if isinstance(e, ast.Compare) and len(e.ops) == 1 and type(e.ops[0]) in _POSITIVE_OP:
+      if self.key(e) is None:
+        pos = ast.copy_location(ast.Compare(left=e.left, ops=[_POSITIVE_OP[type(e.ops[0])]()],
+                                            comparators=e.comparators), e)
+        return f_not(self._atom(pos))
+    if isinstance(e, ast.Name) and depth < 4 and self.key(e) is None:
+      v = self._flag(e, nid, depth)
+      if v is not None:
+        return v
+    return self._atom(e)
+
+  def _flag(self, name, nid, depth):
+    """A boolean flag local: its value as a formula of the tests it was computed from."""
+    flow = self.flow
+    if flow._comp_binding(name) is not None or name.id not in flow.defs:
+      return None
+    if nid is None:
+      nid = flow._node_of.get(id(name))
+      if nid is None:
+        return None
+    rdefs, from_entry = flow.reaching(name.id, nid)
+    if from_entry or not rdefs:
+      return None
+    defs = []
+    for dn in sorted(rdefs):
+      n = flow.cfg.nodes[dn]
+      s = n.stmt
+      if not (n.kind == "stmt" and isinstance(s, ast.Assign) and len(s.targets) == 1 and
+              isinstance(s.targets[0], ast.Name) and s.targets[0].id == name.id):
+        return None
+      if not _boolean_valued(s.value):
+        return None
+      defs.append((dn, s))
+    # later bindings override earlier ones when their guards hold
+    use_guards = {id(t) for (t, p) in guards_of(self.fn.node, flow.cfg.nodes[nid].stmt)} \
+        if flow.cfg.nodes[nid].stmt is not None else set()
+    value = None
+    for (dn, s) in defs:
+      v = self.of_expr(s.value, dn, depth + 1)
+      g = [(t, p) for (t, p) in guards_of(self.fn.node, s) if id(t) not in use_guards]
+      if value is None:
+        if g:
+          return None       # the first binding must be the unconditional one
+        value = v
+      else:
+        gf = f_and(*[self.of_expr(t, None, depth + 1) if p else
+                     f_not(self.of_expr(t, None, depth + 1)) for (t, p) in g]) if g else F_TRUE
+        value = f_or(f_and(gf, v), f_and(f_not(gf), value))
+    return value
+
+  def of_stmt(self, stmt, scope=None, extra=()):
+    """Conjunction of the guards under which `stmt` runs (only the tests inside `scope`, an ast
+    node, when given), plus extra (test, polarity) pairs."""
+    parts = []
+    for (t, p) in list(guards_of(self.fn.node, stmt)) + list(extra):
+      if scope is not None and not _synth_within(t, scope):
+        continue
+      f = self.of_expr(t)
+      parts.append(f if p else f_not(f))
+    return f_and(*parts) if parts else F_TRUE
+
+
+def _boolean_valued(e):
+  return isinstance(e, (ast.Compare, ast.BoolOp)) or \
+      (isinstance(e, ast.UnaryOp) and isinstance(e.op, ast.Not)) or \
+      (isinstance(e, ast.Constant) and isinstance(e.value, bool)) or \
+      (isinstance(e, ast.Call) and dotted(e.func) in ("bool", "isinstance", "any", "all")) or \
+      (isinstance(e, ast.IfExp) and _boolean_valued(e.body) and _boolean_valued(e.orelse))
